@@ -1,3 +1,4 @@
+import MpsProps.Anchors.C06
 import MpsProofs.Echo
 import MpsProps.HandlerSrc
 import MpsProps.C06Byz
